@@ -329,7 +329,8 @@ fn check(c: &Case) -> Verdict {
           }
           Outcome::NotCode | Outcome::ParseErr(_) | Outcome::Err(_) => {
             if want_exact.is_some() {
-              let cause = if f == "sci-int-mantissa" { "sci-int-mantissa-rejected" } else if f.ends_with('_') && matches!(lit, Lit::Based(..)) { "based-underscore-rejected" } else { "typed-literal-rejected" };
+              // same root cause as the listed finding: the magnitude is converted to the kind before the sign is applied (here the conversion rejects instead of saturating)
+              let cause = if c.neg && -r.to_integer() > k.max_int() { "negated-typed-literal-saturates-first" } else if f == "sci-int-mantissa" { "sci-int-mantissa-rejected" } else if f.ends_with('_') && matches!(lit, Lit::Based(..)) { "based-underscore-rejected" } else { "typed-literal-rejected" };
               v.fail(format!("C13|{}|{}|{}|{}", cause, f, ty, out.class()), format!("`{}` fits {} but gave {}", text, k.name(), out.show()));
             } else { reject_ok(&mut v, "unfit"); }
           }
